@@ -262,6 +262,25 @@ pub fn replay_all(cfg: &WorldCfg, hists: &[Vec<Ev>], make_check: MakeCheck) -> V
         .collect()
 }
 
+/// Time slice of the search phase in progress (thorough tiers): a breadth-first search that is
+/// still running when it ends stops after the chunk of replays it is working on and reports what
+/// it covered.  `None` = no slice.
+static PHASE_DEADLINE: std::sync::Mutex<Option<std::time::Instant>> = std::sync::Mutex::new(None);
+/// Number of searches cut short by their time slice so far.
+static PHASES_CUT: std::sync::atomic::AtomicU64 = std::sync::atomic::AtomicU64::new(0);
+
+pub fn set_phase_slice(secs: Option<u64>) {
+    *PHASE_DEADLINE.lock().unwrap() = secs.map(|s| std::time::Instant::now() + std::time::Duration::from_secs(s));
+}
+
+fn phase_slice_over() -> bool {
+    PHASE_DEADLINE.lock().unwrap().is_some_and(|d| std::time::Instant::now() > d)
+}
+
+pub fn phases_cut() -> u64 {
+    PHASES_CUT.load(std::sync::atomic::Ordering::Relaxed)
+}
+
 pub struct BfsResult {
     pub states: u64,
     pub transitions: u64,
@@ -355,6 +374,10 @@ pub fn bfs_roots(
         if mc::past_soft_deadline() {
             break;
         }
+        if phase_slice_over() {
+            PHASES_CUT.fetch_add(1, std::sync::atomic::Ordering::Relaxed);
+            break;
+        }
         let jobs: Vec<(usize, usize)> = (0..frontier.len())
             .flat_map(|n| (0..alphabet.len()).map(move |e| (n, e)))
             .filter(|(n, e)| frontier[*n].1 + cost(&alphabet[*e]) <= cost_bound)
@@ -367,7 +390,21 @@ pub fn bfs_roots(
                 h
             })
             .collect();
-        let mut out: Vec<(u64, Vec<Ev>, usize, Vec<StepFail>)> = replay_all(cfg, &hists, make_check)
+        // a level is replayed in chunks so that a time slice can end inside a large level (the
+        // part of the level not replayed is simply not explored; the result says so)
+        let mut replayed: Vec<(u64, Vec<StepFail>)> = Vec::with_capacity(hists.len());
+        let mut cut = false;
+        for chunk in hists.chunks(20_000) {
+            if !replayed.is_empty() && (phase_slice_over() || mc::past_soft_deadline()) {
+                cut = true;
+                break;
+            }
+            replayed.extend(replay_all(cfg, chunk, make_check));
+        }
+        if cut {
+            PHASES_CUT.fetch_add(1, std::sync::atomic::Ordering::Relaxed);
+        }
+        let mut out: Vec<(u64, Vec<Ev>, usize, Vec<StepFail>)> = replayed
             .into_iter()
             .zip(hists)
             .zip(&jobs)
@@ -390,7 +427,7 @@ pub fn bfs_roots(
             }
         }
         frontier = next;
-        if res.states as usize > max_states {
+        if res.states as usize > max_states || cut {
             break;
         }
         if depth == max_depth && frontier.is_empty() {
